@@ -56,6 +56,7 @@ PK = {
     'pT': bytes.fromhex('fd03200142'),                 # 3-byte type
     'pL': b'\x06\xfd\x00\xfd' + bytes(range(253)),       # 3-byte length
     'pX': b'\x64\xfe\x00\x01\x00\x00' + b'\x77' * 65536,  # 5-byte length
+    'pY': b'\x06\xfe' + (70000).to_bytes(4, 'big') + bytes(i * 7 & 0xFF for i in range(70000)),   # larger than 64 KiB, not a multiple of it
     'pQ': bytes.fromhex('ff0000000000000007') + b'\x01\x09',  # 9-byte type, 1-byte length
     'pM': b'\x06\xfc' + bytes(range(252)),               # the largest one-byte length (252)
     'pm': b'\xfc\x01\x55',                               # the largest one-byte type (252)
@@ -101,6 +102,9 @@ class FramingScenario:
     def fire(self, ev):
         if ev == 'eof':
             self.face.reader.feed_eof()
+        elif ev == 'reset':
+            # the peer resets the connection instead of closing it: the stream ends just the same
+            self.face.reader.set_exception(ConnectionResetError(104, 'Connection reset by peer'))
         else:
             lo, hi = ev
             self.face.reader.feed_data(self.stream[lo:hi])
@@ -112,16 +116,18 @@ class FramingScenario:
                 'failures': self.loop.task_failures(), 'handler': list(self.loop.handler_reports)}
 
 
-def framing_script(n, cuts, eof_at):
+def framing_script(n, cuts, eof_at, end='eof'):
     pts = [0] + sorted(c for c in cuts if c < eof_at) + [eof_at]
-    return tuple((pts[i], pts[i + 1]) for i in range(len(pts) - 1) if pts[i + 1] > pts[i]) + ('eof',)
+    return tuple((pts[i], pts[i + 1]) for i in range(len(pts) - 1) if pts[i + 1] > pts[i]) + (end,)
 
 
-def judge_framing(stream, eof_at, run):
+def judge_framing(stream, eof_at, run, end='eof'):
     viol = []
     exp = ref_frames(stream[:eof_at])
     o = run.obs
-    if o['got'] != exp:
+    if end == 'reset' and o['got'] == exp[:len(o['got'])]:
+        pass        # asyncio discards what it had buffered when the reset arrives: complete packets not yet read may be lost, nothing else
+    elif o['got'] != exp:
         kind = 'missing' if len(o['got']) < len(exp) else ('extra' if len(o['got']) > len(exp) else 'different')
         viol.append((f'C06|framing|{kind}-packets', f'delivered {[(t, len(b)) for t, b in o["got"]]} expected {[(t, len(b)) for t, b in exp]}'))
     if o['running'] or not o['task_done']:
@@ -159,8 +165,9 @@ def framing_cases(tier):
             seqs.append(s)
     long_seqs = [('pL',), ('p1', 'pL'), ('pL', 'pT'), ('pL', 'pL'), ('p0', 'pL', 'p1'), ('pM',), ('pM', 'p1'), ('p1', 'pM', 'pL'),
                  ('pm', 'p1'), ('p0', 'pm', 'pM')]
+    long_seqs += [('pY', 'p1'), ('p1', 'pY', 'pT', 'pL')]
     if tier == 'thorough':
-        long_seqs += [('pX',), ('p1', 'pX', 'pT')]
+        long_seqs += [('pX',), ('p1', 'pX', 'pT'), ('pY', 'pX', 'p1')]
     maxcuts = 2 if tier == 'quick' else 3
     for s in seqs:
         stream = b''.join(PK[x] for x in s)
@@ -179,6 +186,10 @@ def framing_cases(tier):
             yield {'seq': list(s), 'cuts': [], 'eof': e}
             if n <= 14:
                 yield {'seq': list(s), 'cuts': list(range(1, e)), 'eof': e}
+            if len(s) <= 2:
+                yield {'seq': list(s), 'cuts': [], 'eof': e, 'end': 'reset'}
+        if len(s) <= 2:
+            yield {'seq': list(s), 'cuts': [], 'eof': n, 'end': 'reset'}
     for s in long_seqs:
         stream = b''.join(PK[x] for x in s)
         n = len(stream)
@@ -193,12 +204,12 @@ def framing_cases(tier):
 
 def run_framing(case, d, acc=None):
     stream = b''.join(PK[x] for x in case['seq'])
-    script = framing_script(len(stream), case['cuts'], case['eof'])
+    script = framing_script(len(stream), case['cuts'], case['eof'], case.get('end', 'eof'))
     factory = lambda loop, trace: FramingScenario(loop, trace, stream, case['cuts'], case['eof'])  # noqa
     viol = []
 
     def on_run(run):
-        v = judge_framing(stream, case['eof'], run)
+        v = judge_framing(stream, case['eof'], run, case.get('end', 'eof'))
         if acc is not None:
             acc.evaluations += 1
             acc.transitions += run.steps
